@@ -6,8 +6,6 @@ sys.path.insert(0, ROOT)
 from obligations import props as P
 
 NOT_APPLICABLE = {
-    'C13': 'context forwarding is about identity/constness/value category of a forwarding reference through std::forward and an if-constexpr pack call; lowering to C (R13) erases exactly that, and no deductive verifier for C++ object semantics is installed',
-    'C19': 'helper functors (element<X>, construct, push_back, emplace_back, val, create) are pure template machinery: index arithmetic in template default arguments, behaviour in overload resolution over ignore<I>... packs; there is no function body a C contract could be written on',
 }
 PENDING = {  # not yet claimed: no check is registered until the unit exists
 }
